@@ -10,7 +10,8 @@
    `log_of c evs` are the messages delivered on channel c; `submitted W c` those submitted on c. *)
 From Coq Require Import ZArith List Bool.
 From RV Require Import Lib.Wrap Gen.Consts Gen.Sctp Model.SctpRecv
-     Proofs.SctpRecvBase Proofs.SctpRecvRefine Proofs.SctpSendSpec Proofs.SctpTheorems Proofs.SctpWrapWitness Proofs.SctpRwnd.
+     Proofs.SctpRecvBase Proofs.SctpRecvRefine Proofs.SctpSendSpec Proofs.SctpTheorems Proofs.SctpRwnd Model.SctpLive Proofs.SctpLiveProofs.
+From RV Require Model.SctpSend Model.SctpSendSm Proofs.SctpLiveTie.
 Import ListNotations.
 Open Scope Z_scope.
 
@@ -91,28 +92,34 @@ Theorem C01_handshake_client : forall t0 rc,
   r_cum (fst (run (init_r 0 rc) [IInitAck t0 true; ICookieAck])) = w32 (t0 - 1).
 Proof. exact handshake_client. Qed.
 
-(* Listed finding (class setup_replay_before_established): the premise that no DATA is handled
-   before the association is established cannot be dropped.  With DATA overtaking a late
-   COOKIE-ACK and a late duplicate INIT-ACK, every chunk arrives and yet a message is never
-   delivered -- the endpoint still overwrites its cumulative TSN from INIT / INIT-ACK while the
-   handshake is incomplete (after establishment it ignores them: fix 4d354ac). *)
-Theorem C01_setup_replay_refuted :
-  exists sc W t0 rc h,
-    Z.of_nat (length (chunks sc W t0)) < 2147483648 /\ wf_workload sc W /\
-    Forall (genuine_input (chunks sc W t0)) h /\
-    (forall c, In c (chunks sc W t0) -> In (IData c) h) /\
-    exists c, find_chan c rc <> None /\ log_of c (snd (run (init_r 0 rc) h)) <> submitted W c.
-Proof. exact setup_replay_refuted. Qed.
+(* The whole history with ANY traffic before the association is established -- setup chunks
+   (duplicated, superseded INIT-ACKs, invalid cookies) and arbitrary DATA, which is dropped (fix
+   165fa18; this was the open finding setup_replay_before_established) --, then the establishing
+   COOKIE-ACK / valid COOKIE-ECHO, then genuine arrivals and setup chunks in any order. The stream is
+   numbered from the TSN held at establishment; completion needs every chunk to arrive at least
+   once after establishment (what arrived before was dropped unacknowledged and is retransmitted). *)
+Theorem C01_safety_any_handshake : forall sc W t0 rc pre0 e h,
+  Z.of_nat (length (chunks sc W t0)) < 2147483648 ->
+  wf_workload sc W ->
+  Forall pre_input pre0 ->
+  r_conn (fst (run (init_r 0 rc) pre0)) <> SctpState_Connected ->
+  r_cum (fst (run (init_r 0 rc) pre0)) = w32 (t0 - 1) ->
+  e = ICookieAck \/ e = ICookieEcho true ->
+  Forall (genuine_input (chunks sc W t0)) h ->
+  (forall c, exists n, log_of c (snd (run (init_r 0 rc) (pre0 ++ e :: h))) = firstn n (submitted W c)) /\
+  ((forall c, In c (chunks sc W t0) -> In (IData c) h) ->
+   forall c, find_chan c rc <> None -> log_of c (snd (run (init_r 0 rc) (pre0 ++ e :: h))) = submitted W c).
+Proof. exact safety_any_handshake. Qed.
 
-(* ... and the same replay also breaks SAFETY on an ordered channel once the SSN wraps: the old
-   copy of message 0, parked in InboundStream.pending by the replay, is delivered a second time
-   after message 65535, and message 65536 never (65 537 messages; checked by vm_compute). *)
-Theorem C01_setup_replay_safety_refuted :
-  exists sc W t0 rc h,
-    Z.of_nat (length (chunks sc W t0)) < 2147483648 /\ wf_workload sc W /\
-    Forall (genuine_input (chunks sc W t0)) h /\
-    exists c, ~ exists n, log_of c (snd (run (init_r 0 rc) h)) = firstn n (submitted W c).
-Proof. exact setup_replay_safety_refuted. Qed.
+(* the former witness of that finding, as a regression example: DATA overtakes the COOKIE-ACK, a
+   late duplicate INIT-ACK follows, COOKIE-ACK, the third message, the two retransmissions *)
+Theorem C01_setup_replay_fixed :
+  Forall pre_input f11_pre /\
+  r_conn (fst (run (init_r 0 f11_rc) f11_pre)) <> SctpState_Connected /\
+  r_cum (fst (run (init_r 0 f11_rc) f11_pre)) = w32 (f11_t0 - 1) /\
+  evs_of 0 (snd (run (init_r 0 f11_rc) f11_pre)) = [] /\
+  evs_of 0 (snd (run (init_r 0 f11_rc) (f11_pre ++ ICookieAck :: f11_post))) = [EOpen; EMsg [97]; EMsg [98]; EMsg [99]].
+Proof. exact setup_replay_fixed. Qed.
 
 (* Receive-window accounting is conservative (the liveness clause depends on it: a window that
    leaks ends at a_rwnd = 0 for ever and the peer stops sending).  For EVERY history of DATA
@@ -135,6 +142,44 @@ Theorem C01_rwnd_no_leak : forall sc W t0 rc h local,
   ((forall c, In c (chunks sc W t0) -> In (IData c) h) ->
    r_rq st = [] /\ r_used st = 0 /\ adv_rwnd local st = local).
 Proof. exact rwnd_no_leak. Qed.
+
+(* Liveness over abstract Tick events (real time is not modelled: partial).  h0' ++ h0'' is ANY
+   history of the established association -- arrivals drawn from the stream in any order, with any
+   loss and duplication, and setup chunks; the sender still holds every chunk beyond a cumulative
+   ack the receiver reported at some earlier point h0' (stale knowledge, lost SACKs).  A Tick is: T3
+   expires, the first `burst` >= 1 outstanding chunks are re-sent, the now reliable network
+   delivers them, the receiver's SACK comes back and the chunks it covers are dropped
+   (Model/SctpLive.v).  After |stream| Ticks nothing is outstanding, the receiver acknowledges the
+   last TSN and every channel it has holds exactly the submitted sequence. *)
+Theorem C01_live_after_ticks : forall sc W t0 rc h0' h0'' burst,
+  let cs := chunks sc W t0 in
+  let est := est_r (w32 (t0 - 1)) rc in
+  Z.of_nat (length cs) < 2147483648 ->
+  wf_workload sc W ->
+  Forall (genuine_input cs) (h0' ++ h0'') ->
+  (1 <= burst)%nat ->
+  let out0 := ack_drop (r_cum (fst (run est h0'))) cs in
+  let r0 := run est (h0' ++ h0'') in
+  let r := ticks (length cs) burst (out0, fst r0) in
+  fst (fst r) = [] /\
+  r_cum (snd (fst r)) = w32 (t0 - 1 + Z.of_nat (length cs)) /\
+  forall c, find_chan c rc <> None -> log_of c (snd r0 ++ snd r) = submitted W c.
+Proof. exact live_after_ticks. Qed.
+
+(* What a Tick assumes of the sender, proved about C13's model of the sender state machine
+   (Model/SctpSendSm.v, imported unchanged): handle_timeout (T3) followed by transmit re-sends the
+   first RETRANSMIT_BURST unacknowledged records of the sent queue, whatever the window says ... *)
+Theorem C01_t3_resends : forall c s r,
+  In r (firstn (Z.to_nat RETRANSMIT_BURST) (RV.Proofs.SctpLiveTie.unacked (RV.Model.SctpSendSm.s_sent s))) ->
+  In (RV.Model.SctpSendSm.rec_wire r)
+     (snd (RV.Model.SctpSendSm.transmit_chunks c (RV.Model.SctpSendSm.handle_t3 s))).
+Proof. exact RV.Proofs.SctpLiveTie.t3_transmit_resends. Qed.
+
+(* ... and the cumulative removal of apply_sack keeps exactly the serially later TSNs (tsn_gt) *)
+Theorem C01_sack_cum_removal : forall cum sent,
+  map RV.Model.SctpSendSm.r_tsn (RV.Model.SctpSendSm.cum_kept cum sent) =
+  filter (fun t => RV.Gen.Serial.tsn_gt t cum) (map RV.Model.SctpSendSm.r_tsn sent).
+Proof. exact RV.Proofs.SctpLiveTie.cum_kept_is_tsn_gt. Qed.
 
 (* In-order processing of any prefix of the sender's stream logs a prefix of the submissions. *)
 Theorem C01_in_order_prefix : forall sc W ssns a k c,
